@@ -132,7 +132,8 @@ def run(ctx):
         nd = -3000.0
         cube[cube == nd] += 1
         cube[rng.random(cube.shape) < 0.15] = nd
-        a = dict(op="whits", cube=cube.tolist(), nodata=nd, order=[("time", "y", "x"), ("y", "x", "time"), ("x", "time", "y")][k % 3])
+        a = dict(op="whits", cube=cube.tolist(), nodata=nd, order=[("time", "y", "x"), ("y", "x", "time"), ("x", "time", "y")][k % 3],
+                 attr_nodata=[None, -9999, 0][(k + 1) % 3])
         if k % 2:
             sg = rng.uniform(-1, 3, size=(2, 3)).tolist()
             sg[0][1] = None                              # -inf: lambda = 0
